@@ -59,11 +59,37 @@ fn show<T: std::fmt::LowerHex>(r: Result<T, String>) -> String {
     }
 }
 
+/// argument of get_root_of_unity: every legal order, both sides of the two asserts, and wild u32 values
+fn gen_order(r: &mut Rng, two_adicity: u32) -> u32 {
+    match r.below(8) {
+        0 => 0,
+        1 => two_adicity + 1 + r.below(3) as u32,
+        2 => match r.below(4) { 0 => u32::MAX, 1 => 64, 2 => 128, _ => r.next_u64() as u32 },
+        3 => two_adicity,
+        4 => 1,
+        _ => 1 + r.below(two_adicity as u64) as u32,
+    }
+}
+
+/// argument of from_bytes_with_padding: every length 0..=nb+1 (the assert fails at nb), bytes from the
+/// boundary classes (all zero, all 0xff = largest padded value, top byte set) and random
+fn gen_short_bytes(r: &mut Rng, nb: usize) -> Vec<u8> {
+    let len = match r.below(6) { 0 => nb - 1, 1 => nb, 2 => nb + 1, 3 => 0, _ => r.below(nb as u64) as usize };
+    let mut v: Vec<u8> = (0..len).map(|_| r.next_u64() as u8).collect();
+    match r.below(5) {
+        0 => v.iter_mut().for_each(|b| *b = 0xff),
+        1 => v.iter_mut().for_each(|b| *b = 0),
+        2 => { if let Some(l) = v.last_mut() { *l = 0xff } }
+        _ => {}
+    }
+    v
+}
+
 fn corr_f64(r: &mut Rng, n: usize, out: &mut Vec<String>) {
     let b = boundary64(M64);
     let ops = [
         "new", "as_int", "add", "sub", "mul", "neg", "double", "mul_small", "exp", "inv", "div", "exp7", "eq",
-        "try_from_u64", "try_from_u128", "try_from_bytes", "square", "exp_vartime",
+        "try_from_u64", "try_from_u128", "try_from_bytes", "square", "exp_vartime", "grou", "fbwp",
     ];
     for i in 0..n {
         let op = ops[i % ops.len()];
@@ -93,6 +119,8 @@ fn corr_f64(r: &mut Rng, n: usize, out: &mut Vec<String>) {
             "try_from_u64" => { let v = gen_u64(r, &b); format!("f64.try_from_u64 {:x} => {}", v, match f64::BaseElement::try_from(v) { Ok(e) => format!("{:x}", e.inner()), Err(_) => "none".into() }) }
             "try_from_u128" => { let v = if r.chance(1, 2) { gen_u64(r, &b) as u128 } else { r.next_u128() >> r.below(70) }; format!("f64.try_from_u128 {:x} => {}", v, match f64::BaseElement::try_from(v) { Ok(e) => format!("{:x}", e.inner()), Err(_) => "none".into() }) }
             "try_from_bytes" => { let v = gen_u64(r, &b); format!("f64.try_from_bytes {} => {}", hex_bytes(&v.to_le_bytes()), match f64::BaseElement::try_from(v.to_le_bytes()) { Ok(e) => format!("{:x}", e.inner()), Err(_) => "none".into() }) }
+            "grou" => { let k = gen_order(r, 32); format!("f64.grou {:x} => {}", k, show(catch(|| f64::BaseElement::get_root_of_unity(k).inner()))) }
+            "fbwp" => { let bs = gen_short_bytes(r, 8); format!("f64.fbwp {} => {}", hex_bytes(&bs), show(catch(|| f64::BaseElement::from_bytes_with_padding(&bs).inner()))) }
             _ => unreachable!(),
         };
         out.push(line);
@@ -116,10 +144,11 @@ fn f128raw(e: f128::BaseElement) -> u128 {
 
 fn corr_f62(r: &mut Rng, n: usize, out: &mut Vec<String>) {
     let b = boundary64(M62);
-    let ops = ["new", "as_int", "add", "sub", "mul", "neg", "double", "exp", "inv", "div", "eq", "try_from_u64", "try_from_u128"];
+    let ops = ["new", "as_int", "add", "sub", "mul", "neg", "double", "exp", "inv", "div", "eq", "try_from_u64", "try_from_u128",
+        "exp_vartime", "grou", "fbwp"];
     for i in 0..n {
         let op = ops[i % ops.len()];
-        let legit = r.chance(3, 4) || op == "inv" || op == "div" || op == "exp";
+        let legit = r.chance(3, 4) || op == "inv" || op == "div" || op == "exp" || op == "exp_vartime";
         let w = |r: &mut Rng| {
             let x = gen_u64(r, &b);
             if legit { x % (2 * M62) } else { x }
@@ -139,6 +168,9 @@ fn corr_f62(r: &mut Rng, n: usize, out: &mut Vec<String>) {
             "eq" => { let c2 = match r.below(4) { 0 => a, 1 => a.wrapping_add(M62), _ => c }; format!("f62.eq {:x} {:x} => {}", a, c2, show(catch(|| (f62w(a) == f62w(c2)) as u8))) }
             "try_from_u64" => { let v = gen_u64(r, &b); format!("f62.try_from_u64 {:x} => {}", v, match f62::BaseElement::try_from(v) { Ok(e) => format!("{:x}", f62raw(e)), Err(_) => "none".into() }) }
             "try_from_u128" => { let v = if r.chance(1, 2) { gen_u64(r, &b) as u128 } else { r.next_u128() >> r.below(70) }; format!("f62.try_from_u128 {:x} => {}", v, match f62::BaseElement::try_from(v) { Ok(e) => format!("{:x}", f62raw(e)), Err(_) => "none".into() }) }
+            "exp_vartime" => { let p = gen_u64(r, &b); format!("f62.exp_vartime {:x} {:x} => {}", a, p, show(catch(|| f62raw(f62w(a).exp_vartime(p))))) }
+            "grou" => { let k = gen_order(r, 39); format!("f62.grou {:x} => {}", k, show(catch(|| f62raw(f62::BaseElement::get_root_of_unity(k))))) }
+            "fbwp" => { let bs = gen_short_bytes(r, 8); format!("f62.fbwp {} => {}", hex_bytes(&bs), show(catch(|| f62raw(f62::BaseElement::from_bytes_with_padding(&bs))))) }
             _ => unreachable!(),
         };
         out.push(line);
@@ -159,7 +191,7 @@ fn gen_u128(r: &mut Rng) -> u128 {
 }
 
 fn corr_f128(r: &mut Rng, n: usize, out: &mut Vec<String>) {
-    let ops = ["new", "add", "sub", "mul", "neg", "exp", "inv", "div", "try_from_u128", "mul", "mul"];
+    let ops = ["new", "add", "sub", "mul", "neg", "exp", "inv", "div", "try_from_u128", "mul", "mul", "grou", "fbwp"];
     for i in 0..n {
         let op = ops[i % ops.len()];
         let legit = r.chance(4, 5) || op == "inv" || op == "div" || op == "exp";
@@ -175,6 +207,8 @@ fn corr_f128(r: &mut Rng, n: usize, out: &mut Vec<String>) {
             "inv" => format!("f128.inv {:x} => {}", a, show(catch(|| f128raw(f128w(a).inv())))),
             "div" => format!("f128.div {:x} {:x} => {}", a, c, show(catch(|| f128raw(f128w(a) / f128w(c))))),
             "try_from_u128" => { let v = gen_u128(r); format!("f128.try_from_u128 {:x} => {}", v, match f128::BaseElement::try_from(v) { Ok(e) => format!("{:x}", f128raw(e)), Err(_) => "none".into() }) }
+            "grou" => { let k = gen_order(r, 40); format!("f128.grou {:x} => {}", k, show(catch(|| f128raw(f128::BaseElement::get_root_of_unity(k))))) }
+            "fbwp" => { let bs = gen_short_bytes(r, 16); format!("f128.fbwp {} => {}", hex_bytes(&bs), show(catch(|| f128raw(f128::BaseElement::from_bytes_with_padding(&bs))))) }
             _ => unreachable!(),
         };
         out.push(line);
